@@ -91,6 +91,9 @@ struct Gen<'a> {
     rng: &'a mut Rng,
     n_probe: usize,
     forward: bool,
+    /// no variable is defined at the start: assignments are plain values only (a value containing `$x`
+    /// of an undefined x would be re-substituted by the second attribute pass)
+    plain_only: bool,
     /// variables that may no longer be assigned at outer levels (a retried unit has read them)
     frozen: Vec<String>,
 }
@@ -123,7 +126,7 @@ impl<'a> Gen<'a> {
                     if self.frozen.iter().any(|f| f == k) && !scoped { continue; }
                     if in_retried && !scoped { continue; }
                     let k2 = *self.rng.pick(&VARS);
-                    let attrs: Vec<(String, String)> = match self.rng.below(3) {
+                    let attrs: Vec<(String, String)> = match if self.plain_only { 0 } else { self.rng.below(3) } {
                         0 => vec![(k.to_string(), self.value())],
                         1 => vec![(k.to_string(), format!("${k2}+"))],
                         _ if k != k2 && !(self.frozen.iter().any(|f| f == k2) && !scoped) => vec![(k.to_string(), format!("${k2}")), (k2.to_string(), format!("${k}"))],
@@ -178,9 +181,9 @@ fn reads(n: &X, acc: &mut Vec<String>) {
     }
 }
 
-fn gen_doc(rng: &mut Rng, forward: bool) -> Vec<X> {
-    let mut g = Gen { rng, n_probe: 0, forward, frozen: vec![] };
-    let mut top: Vec<X> = vec![X::leaf("var", &[("a", "A0"), ("b", "B0"), ("c", "C0")])];
+fn gen_doc(rng: &mut Rng, forward: bool, plain_only: bool) -> Vec<X> {
+    let mut g = Gen { rng, n_probe: 0, forward, plain_only, frozen: vec![] };
+    let mut top: Vec<X> = if plain_only { vec![] } else { vec![X::leaf("var", &[("a", "A0"), ("b", "B0"), ("c", "C0")])] };
     let units = 3 + g.rng.below(5);
     for _ in 0..units {
         // build one top-level unit; if it contains a forward reference it will be retried as a whole:
@@ -299,7 +302,7 @@ pub fn run(rep: &mut Report, tier: &str, seed: u64) -> Result<(), String> {
     let mut corr = Stream::new(
         "doc/scoping",
         "correspondence",
-        "fragments of nested g (with attribute locals) / loop (with loop-var) / if scopes, <var> assignments (plain, in terms of current values, two-attribute swaps), probes <rect data-p=\"$a|${b}\"> and, in half of the documents, forward references #z that make the enclosing top-level unit fail and be re-evaluated; implementation (output elements + end-of-run stack heights) vs the Lean control-skeleton model; non-trivial = every case",
+        "fragments (half of them with no variable defined before the first group, so that the scope stack starts empty) of nested g (with attribute locals) / loop (with loop-var) / if scopes, <var> assignments (plain, in terms of current values, two-attribute swaps), probes <rect data-p=\"$a|${b}\"> and, in half of the documents, forward references #z that make the enclosing top-level unit fail and be re-evaluated; implementation (output elements + end-of-run stack heights) vs the Lean control-skeleton model; non-trivial = every case",
     );
     let mut orc = Stream::new(
         "oracle/lexical-binding",
@@ -308,8 +311,10 @@ pub fn run(rep: &mut Report, tier: &str, seed: u64) -> Result<(), String> {
     );
     for i in 0..n {
         let forward = i % 2 == 1;
-        let nodes = gen_doc(&mut rng, forward);
-        check_doc(rep, &mut drv, &mut corr, &mut orc, &nodes, if forward { "forward-refs" } else { "in-order" })?;
+        let plain_only = i % 4 >= 2;
+        let nodes = gen_doc(&mut rng, forward, plain_only);
+        let tag = match (forward, plain_only) { (false, false) => "in-order", (true, false) => "forward-refs", (false, true) => "in-order/no-initial-scope", (true, true) => "forward-refs/no-initial-scope" };
+        check_doc(rep, &mut drv, &mut corr, &mut orc, &nodes, tag)?;
     }
     rep.streams.push(corr);
     rep.streams.push(orc);
